@@ -13,7 +13,7 @@ RULE = (
     "heuristic (np.random.permutation / choice) is a choice point owned by the explorer: ALL answer "
     "sequences for small pairs (state-key pruning on direction/goal/mappings tried/best distortion), "
     "every single deviation from the default answers (deviation bound 1) for the rest. Larger graphs (6-7 vertices: trees, unicyclic, ...; "
-    "hubs, spiders, caterpillars): all pairs under default answers against the exact oracle and all/systematic relabellings (lb must be 0). Oracle: exact "
+    "hubs, spiders, caterpillars): all pairs under default answers against the exact oracle and all/systematic relabellings (lb must be 0). Collections: every unordered triple of a cover of 14 (thorough 18) graphs on 1..7 vertices in ALL 6 orders and every 4-subset of every second graph in 4 orders: each entry of both matrices brackets that pair's truth. Oracle: exact "
     "mGH by enumeration of all |Y|^|X| maps. state = (pair, order); transition = one execution of "
     "gromov_hausdorff under one answer sequence; non-trivial = lower bound < upper bound for some "
     "schedule, or different schedules give different upper bounds."
@@ -57,9 +57,95 @@ def relabellings(n, full):
     return out
 
 
+def _path(n):
+    return [[1 if j == i + 1 else 0 for j in range(n)] for i in range(n)]
+
+
+def _cycle(n):
+    A = _path(n)
+    A[0][n - 1] = 1
+    return A
+
+
+def _star(n):
+    return [[1 if (i == 0 and j > 0) else 0 for j in range(n)] for i in range(n)]
+
+
+def _complete(n):
+    return [[1 if j > i else 0 for j in range(n)] for i in range(n)]
+
+
+def coll_cover(tier):
+    """Graphs of very different sizes and diameters (1..7 vertices): in a collection the pairwise bounds of
+    one pair must not be spoiled by what was computed for the other pairs."""
+    hubs = [g for g in mgh.atlas(6, 1) if max(sum(r) + sum(c[i] for c in g) for i, r in enumerate(g)) >= 4][:3]
+    cov = [_path(1), _path(2), _path(3), _path(4), _path(5), _path(6), _path(7), _cycle(4), _cycle(5), _cycle(6), _cycle(7),
+           _star(4), _star(6), _complete(4), _complete(6)] + hubs
+    return cov if tier == "thorough" else cov[:7] + cov[8:10] + cov[11:13] + cov[14:]
+
+
+_TRUTH = {}
+
+
+def truth_of(A, B):
+    k = (repr(A), repr(B))
+    if k not in _TRUTH:
+        _TRUTH[k] = mgh.exact_double(mgh.bfs_dist(A).astype(np.int64), mgh.bfs_dist(B).astype(np.int64))
+        _TRUTH[(repr(B), repr(A))] = _TRUTH[k]
+    return _TRUTH[k]
+
+
+def run_collection(case, ctx):
+    """One unordered triple / 4-set of the cover, passed as a collection in EVERY order (triples) or in 4
+    orders (4-sets): every entry of both result matrices must bracket that pair's true distance."""
+    import itertools
+
+    from mc.choices import Chooser
+    from persim import gromov_hausdorff
+
+    cov = coll_cover(ctx.tier)
+    idx = case["idx"]
+    if len(idx) == 3:
+        orders = list(itertools.permutations(idx))
+    else:
+        orders = [tuple(idx), tuple(idx[::-1]), tuple(idx[1:] + idx[:1]), (idx[1], idx[0], idx[3], idx[2])]
+    with _seam.installed():
+        _seam.cache = {}
+        for order in orders:
+            gs = [cov[i] for i in order]
+            _seam.start_run(Chooser(()))
+            ctx.trans()
+            ctx.state(("coll", order))
+            res = gromov_hausdorff([np.array(g) for g in gs])
+            ctx.valid()
+            try:
+                lbs, ubs = np.asarray(res[0], dtype=float), np.asarray(res[1], dtype=float)
+                assert lbs.shape == ubs.shape == (len(gs), len(gs))
+            except Exception:  # noqa: BLE001
+                ctx.violation("collection-shape", "collection call did not return two NxN matrices", observed=repr(res)[:300], extra={"graphs": gs})
+                continue
+            if not (np.array_equal(lbs, lbs.T) and np.array_equal(ubs, ubs.T)) or np.any(np.diag(lbs) != 0) or np.any(np.diag(ubs) != 0):
+                ctx.violation("collection-symmetry", "collection matrices are not symmetric with zero diagonal", observed=[lbs.tolist(), ubs.tolist()], extra={"graphs": gs})
+            for a in range(len(gs)):
+                for b in range(len(gs)):
+                    if a != b:
+                        check_bracket(ctx, gs[a], gs[b], {truth_of(gs[a], gs[b])}, (lbs[a, b], ubs[a, b]),
+                                      {"collection_order": list(order), "entry": [a, b], "answers": "default"})
+            if np.any(lbs < ubs):
+                ctx.nontriv("collection_with_a_loose_bracket", key=("coll", order))
+    ctx.outcome(("coll", idx))
+
+
 def cases(tier):
+    import itertools
+
     for c in small_cases(tier):
         yield c
+    nc = len(coll_cover(tier))
+    for t in itertools.combinations(range(nc), 3):
+        yield {"kind": "collection", "idx": list(t)}
+    for q in itertools.combinations(range(0, nc, 2), 4):
+        yield {"kind": "collection", "idx": list(q)}
     S = big_set(tier)
     for i in range(len(S)):
         yield {"kind": "iso", "i": i}
@@ -174,6 +260,8 @@ def run_case(case, ctx):
 
     if case.get("kind") in ("iso", "big-pair"):
         return run_big(case, ctx)
+    if case.get("kind") == "collection":
+        return run_collection(case, ctx)
     A, B = case["A"], case["B"]
     truth2 = {mgh.exact_double(mgh.bfs_dist(A).astype(np.int64), mgh.bfs_dist(B).astype(np.int64))}
     NA, NB = np.array(A), np.array(B)
